@@ -59,7 +59,7 @@ type item struct {
 type pubCall struct {
 	pub   int
 	topic string
-	path  []int // publisher decorators this call passed, in the order passed
+	path  []string // publisher decorators this call passed, in the order passed: <id>=<context values it read>
 	items []item
 }
 
@@ -80,8 +80,8 @@ type copyInfo struct {
 	ctx     string
 	settle  string
 	calls   []*pubCall
-	subPath []int // subscriber decorators the copy passed
-	pending []int // publisher decorators passed by the Publish call that is under way
+	subPath []int    // subscriber decorators the copy passed
+	pending []string // publisher decorators passed by the Publish call that is under way: <id>=<context values read>
 }
 
 type objInfo struct {
@@ -166,7 +166,19 @@ func (d *decPub) Publish(topic string, msgs ...*message.Message) error {
 	d.r.mu.Lock()
 	if len(msgs) > 0 {
 		if c := d.r.ownerOf(msgs[0]); c != nil {
-			c.pending = append(c.pending, d.id)
+			// the decorator reads the five context values of every message it is handed (like components/metrics does)
+			var seen []string
+			for _, m := range msgs {
+				x := ctx5(m.Context())
+				dup := false
+				for _, y := range seen {
+					dup = dup || x == y
+				}
+				if !dup {
+					seen = append(seen, x)
+				}
+			}
+			c.pending = append(c.pending, strconv.Itoa(d.id)+"="+strings.Join(seen, "|"))
 		}
 	}
 	d.r.mu.Unlock()
@@ -354,12 +366,13 @@ type op struct {
 }
 
 type request struct {
-	subNames map[int]string
-	subOrder []int
-	pubNames map[int]string
-	hs       []hcfg
-	ds       []delivery
-	ops      []op
+	subNames   map[int]string
+	subOrder   []int
+	pubNames   map[int]string
+	hs         []hcfg
+	ds         []delivery
+	ops        []op
+	appWrapped map[int]bool
 }
 
 func parse(req string) (*request, bool) {
@@ -367,7 +380,7 @@ func parse(req string) (*request, bool) {
 	if len(toks) == 0 || toks[0] != "route" {
 		return nil, false
 	}
-	q := &request{subNames: map[int]string{}, pubNames: map[int]string{}}
+	q := &request{subNames: map[int]string{}, pubNames: map[int]string{}, appWrapped: map[int]bool{}}
 	names := map[string]bool{}
 	for _, t := range toks[1:] {
 		if t == "RUN" {
@@ -458,7 +471,7 @@ func parse(req string) (*request, bool) {
 				d.done = f[5]
 			}
 			q.ds = append(q.ds, d)
-		case strings.HasPrefix(kv[0], "S"):
+		case strings.HasPrefix(kv[0], "S") || strings.HasPrefix(kv[0], "W"):
 			id, err := strconv.Atoi(kv[0][1:])
 			name, ok := unhex(kv[1])
 			if _, dup := q.subNames[id]; err != nil || !ok || dup {
@@ -466,6 +479,9 @@ func parse(req string) (*request, bool) {
 			}
 			q.subNames[id] = name
 			q.subOrder = append(q.subOrder, id)
+			if kv[0][0] == 'W' { // the application wraps this subscriber itself with the public transform decorator
+				q.appWrapped[id] = true
+			}
 		case strings.HasPrefix(kv[0], "P"):
 			id, err := strconv.Atoi(kv[0][1:])
 			name, ok := unhex(kv[1])
@@ -502,6 +518,13 @@ func runCase(req string) (obs string) {
 	for _, id := range q.subOrder {
 		cores[id] = &subCore{id: id, r: r, closing: make(chan struct{})}
 		subs[id] = mkSub(cores[id], q.subNames[id])
+		if q.appWrapped[id] {
+			w, err := message.MessageTransformSubscriberDecorator(func(*message.Message) {})(subs[id])
+			if err != nil {
+				return "bad-op"
+			}
+			subs[id] = w
+		}
 	}
 	pubs := map[int]message.Publisher{}
 	for id, name := range q.pubNames {
@@ -785,7 +808,7 @@ func runCase(req string) (obs string) {
 					for x, it := range call.items {
 						its[x] = it.ref + "~" + it.flag + "~" + it.ctx + "~" + it.owner
 					}
-					cs[k] = "P" + strconv.Itoa(call.pub) + "@" + wh.HexS(call.topic) + "!" + pathText(call.path) + "[" + strings.Join(its, ",") + "]"
+					cs[k] = "P" + strconv.Itoa(call.pub) + "@" + wh.HexS(call.topic) + "!" + joinOrDash(call.path) + "[" + strings.Join(its, ",") + "]"
 				}
 				pubsTxt = strings.Join(cs, "+")
 			}
@@ -806,6 +829,13 @@ func runCase(req string) (obs string) {
 
 // staleCtx builds a context that already carries router values (stale.go)
 var staleCtx = func(spec string) context.Context { return context.Background() }
+
+func joinOrDash(p []string) string {
+	if len(p) == 0 {
+		return "-"
+	}
+	return strings.Join(p, ".")
+}
 
 func pathText(p []int) string {
 	if len(p) == 0 {
@@ -871,7 +901,11 @@ func randomCase(rng *wh.Rng) string {
 	}
 	var toks []string
 	for s := 1; s <= nS; s++ {
-		toks = append(toks, "S"+strconv.Itoa(s)+"="+wh.HexS(typeName(rng, "sub")))
+		kind := "S"
+		if rng.Intn(4) == 0 {
+			kind = "W" // wrapped by the application with MessageTransformSubscriberDecorator
+		}
+		toks = append(toks, kind+strconv.Itoa(s)+"="+wh.HexS(typeName(rng, "sub")))
 	}
 	for p := 1; p <= nP; p++ {
 		toks = append(toks, "P"+strconv.Itoa(p)+"="+wh.HexS(typeName(rng, "pub")))
@@ -1131,6 +1165,34 @@ func stepCases(emit func(string, string)) {
 	}
 }
 
+// handlers whose subscriber the APPLICATION has wrapped itself with the public MessageTransformSubscriberDecorator
+// (alone, shared by two handlers, next to a raw one, with router decorators, with a no-publisher handler): inside the
+// handler, at every publisher decorator and at the publisher the context reports that handler's values
+func appWrappedCases(emit func(string, string)) {
+	hx := wh.HexS
+	ds := func(sub int, topic string, from int) []string {
+		var out []string
+		for k, sh := range []string{"f0", "c.f0", "-", "f0.f1"} {
+			out = append(out, fmt.Sprintf("d=%d:%s:%d:%s", sub, hx(topic), from+k, sh))
+		}
+		return out
+	}
+	cfgs := [][]string{
+		{"W1=" + hx("main.subA"), "P1=" + hx("main.pubA"), fmt.Sprintf("h=%s:1:%s:p1:%s:0", hx("A"), hx("ta"), hx("oa"))},
+		{"W1=" + hx("main.subB"), "P1=" + hx("main.pubA"), "D1", "E2",
+			fmt.Sprintf("h=%s:1:%s:p1:%s:1", hx("A"), hx("ta"), hx("oa")), fmt.Sprintf("h=%s:1:%s:np:-:1", hx("B"), hx("ta"))},
+		{"W1=" + hx("kafka.Subscriber"), "S2=" + hx("main.subA"), "P1=" + hx("main.pubB"), "D1", "D2",
+			fmt.Sprintf("h=%s:1:%s:p1:%s:0", hx("A"), hx("ta"), hx("oa")), "RUN",
+			fmt.Sprintf("h=%s:2:%s:p1:%s:0", hx("B"), hx("ta"), hx("ob")), fmt.Sprintf("h=%s:1:%s:nil:%s:0", hx("C"), hx("ta"), hx("oc")), "RUN"},
+		{"W1=-", "P1=-", "E1", fmt.Sprintf("h=-:1:%s:p1:-:0", hx("ta"))},
+	}
+	for _, c := range cfgs {
+		toks := append(append([]string{}, c...), ds(1, "ta", 1)...)
+		toks = append(toks, ds(2, "ta", 11)...)
+		emit("route "+strings.Join(toks, " "), "app_wrapped_subscriber")
+	}
+}
+
 type job struct{ req, tag string }
 
 func main() {
@@ -1164,6 +1226,7 @@ func main() {
 	staleCases(emit)
 	doneCases(emit)
 	stepCases(emit)
+	appWrappedCases(emit)
 	reqs := make([]string, len(jobs))
 	for i, j := range jobs {
 		reqs[i] = j.req
@@ -1199,6 +1262,8 @@ func main() {
 				if f[5] != "0" {
 					out.Count("handler.with_middleware_outputs")
 				}
+			case t[0] == 'W':
+				out.Count("subscribers.application_wrapped")
 			case t == "RUN":
 				out.Count("ops.RunHandlers")
 			case t[0] == 'D' && !strings.Contains(t, "="):
